@@ -1269,6 +1269,28 @@ def run_sshsig(ctx):
         ctx, msg, sig, 'bob', line(signer, 'bob', 'cert-authority').encode(),
         label0), f'{label0}: plain key accepted through a cert-authority '
                  f'line', 'sshsig_unauthorised_accepted')
+    # options in combination: every one of them has to hold
+    if nsq == ns and ',' not in ns and '*' not in ns and '?' not in ns \
+            and '!' not in ns and ns.isascii():
+        okns = f'namespaces="{ns}"'
+        for opts, good in (
+                (f'{okns},valid-before="{ts(T0 - 10)}"', False),
+                (f'{okns},valid-after="{ts(T0 + 10)}"', False),
+                (f'valid-before="{ts(T0 - 10)}",{okns}', False),
+                (f'{okns},valid-after="{ts(T0 - 50)}",'
+                 f'valid-before="{ts(T0 + 50)}"', True),
+                (f'namespaces="zz-other",valid-after="{ts(T0 - 50)}",'
+                 f'valid-before="{ts(T0 + 50)}"', False),
+                (f'valid-after="{ts(T0 - 50)}",{okns},'
+                 f'valid-before="{ts(T0 - 10)}"', False)):
+            v = v_sshsig(ctx, msg, sig, 'bob',
+                         line(signer, 'bob', opts).encode(), label0)
+            if good:
+                must_accept(ctx, v, f'{label0} options {opts}')
+            else:
+                must_reject(ctx, v, f'{label0}: allowed-signers line with '
+                                    f'options {opts} accepted',
+                            'sshsig_unauthorised_accepted')
 
     # blob field substitutions (re-armored)
     subst = [('namespace', (ns + 'x').encode()), ('namespace', b'other'),
